@@ -74,6 +74,17 @@ def cases(tier, seed):
         cost = 6 if kind.startswith(("lens", "tmatrix", "multi")) else 1
         out.append({"id": "id-%d" % i, "kind": "identity", "cfg": cfg, "ckind": kind, "scaling": sc,
                     "optics_in": ["args", "detector", "mixed", "override"][(i // 4) % 4], "cost": cost})
+    # multi-channel identity: per-channel scaling / wavelength / polarization given as dicts in arbitrary key order
+    nmc = 30 if tier == "quick" else 600
+    for i in range(nmc):
+        nch = 2 + i % 2
+        labs = [["red", "green", "blue"], ["a", "b", "c"], [405, 532, 658]][(i // 2) % 3][:nch]
+        out.append({"id": "idmc-%d" % i, "kind": "identity_multi", "labels": labs, "nmed": float(rng.uniform(1.0, 1.5)),
+                    "wl": [float(rng.uniform(0.4, 0.8)) for _ in labs], "pol": [[float(rng.normal()), float(rng.normal())] for _ in labs],
+                    "scaling": [float(rng.uniform(0.2, 1.5)) for _ in labs], "n": float(rng.uniform(1.5, 2.2)), "r": float(rng.uniform(0.2, 0.8)),
+                    "center": [float(rng.uniform(0, 1.5)), float(rng.uniform(0, 1.5)), float(rng.uniform(5, 20))],
+                    "shape": [int(rng.integers(1, 7)), int(rng.integers(2, 7))], "spacing": [float(rng.uniform(0.1, 0.4)), float(rng.uniform(0.1, 0.4))],
+                    "seed": [seed, "idmc", i]})
     # histories
     ngroups = 1 if tier == "quick" else 6
     K = 12
@@ -175,6 +186,37 @@ def _run_identity(case):
             "npix": int(h.size)}
 
 
+def _run_identity_multi(case):
+    from holopy.scattering import calc_holo, calc_field, calc_intensity, Sphere
+    from holopy.core.metadata import detector_grid
+    rng = rng_for(*case["seed"])
+    labs = case["labels"]
+    nch = len(labs)
+
+    def shuffled(vals):
+        ks = [int(i) for i in rng.permutation(nch)]
+        return {labs[k]: vals[k] for k in ks}
+    wl, pol, sc = shuffled(case["wl"]), shuffled([tuple(p) for p in case["pol"]]), shuffled(case["scaling"])
+    det = detector_grid(tuple(case["shape"]), tuple(case["spacing"]), extra_dims={"illumination": labs})
+    s = Sphere(n=case["n"], r=case["r"], center=tuple(case["center"]))
+    h = calc_holo(det, s, case["nmed"], wl, pol, scaling=sc)
+    f = calc_field(det, s, case["nmed"], wl, pol)
+    I = calc_intensity(det, s, case["nmed"], wl, pol)
+    worst_h = worst_i = 0.0
+    flags = {}
+    for k, l in enumerate(labs):
+        fx = f.sel(illumination=l, vector="x")
+        fy = f.sel(illumination=l, vector="y")
+        p = _unit_pol(case["pol"][k])
+        ref = np.abs(case["scaling"][k] * fx.values + p[0]) ** 2 + np.abs(case["scaling"][k] * fy.values + p[1]) ** 2
+        worst_h = max(worst_h, relmax(h.sel(illumination=l).transpose(*fx.dims).values, ref))
+        worst_i = max(worst_i, relmax(I.sel(illumination=l).transpose(*fx.dims).values, np.abs(fx.values) ** 2 + np.abs(fy.values) ** 2))
+        got_wl = h.attrs["illum_wavelen"]
+        flags["wavelength_label@%s" % l] = bool(float(got_wl.sel(illumination=l)) == case["wl"][k])
+    return {"resid": {"holo_identity": fnum(worst_h), "intensity_identity": fnum(worst_i)}, "flags": flags,
+            "fmax": fnum(float(np.abs(f.values).max())), "hptp": fnum(float(np.ptp(h.values))), "npix": int(h.size)}
+
+
 def _run_history(case):
     from holopy.scattering import calc_holo, calc_field
     cfgs = case["cfgs"]
@@ -208,6 +250,13 @@ TOL = {"holo_identity": 1e-12, "intensity_identity": 1e-12, "scaling0_minus_1": 
 
 def judge(case, obs):
     out = []
+    if case["kind"] == "identity_multi":
+        for k, v in obs["resid"].items():
+            if not v <= TOL[k]:
+                out.append({"mech": "identity_multi.%s" % k, "detail": "%s=%.3e > %.1e; labels=%s" % (k, v, TOL[k], case["labels"])})
+        for k, v in obs["flags"].items():
+            if not v:
+                out.append({"mech": "identity_multi.%s" % k.split("@")[0], "detail": "flag %s false; labels=%s" % (k, case["labels"])})
     if case["kind"] == "identity":
         desc = {"ckind": case["ckind"], "scaling": case["scaling"], "optics_in": case["optics_in"], "theory": case["cfg"]["theory"], "det": case["cfg"]["det"].get("t")}
         for k, v in obs["resid"].items():
